@@ -292,6 +292,12 @@ func (b *ReadWrite) FinalizeReadOnly() error {
 }
 
 func (b *ReadWrite) finalizeReadOnlyWithoutMutex() error {
+	if b.ronly.closed {
+		// Allow duplicate Finalize calls, just like Close.
+		// Still error, just like ReadOnly.Close; it should be discarded.
+		// (Also for a CARv1: the blockstore may have closed itself over a file it could not repair.)
+		return fmt.Errorf("called Finalize or FinalizeReadOnly on a closed blockstore")
+	}
 	if b.opts.WriteAsCarV1 {
 		// all blocks are already properly written to the CARv1 inner container and there's
 		// no additional finalization required at the end of the file for a complete v1
@@ -299,11 +305,6 @@ func (b *ReadWrite) finalizeReadOnlyWithoutMutex() error {
 		return nil
 	}
 
-	if b.ronly.closed {
-		// Allow duplicate Finalize calls, just like Close.
-		// Still error, just like ReadOnly.Close; it should be discarded.
-		return fmt.Errorf("called Finalize or FinalizeReadOnly on a closed blockstore")
-	}
 	if b.finalized {
 		return fmt.Errorf("called Finalize or FinalizeReadOnly on an already finalized blockstore")
 	}
